@@ -719,7 +719,11 @@ def run_check(prop: Prop, tier: str, seed: int, replay: str | None = None) -> in
             for case, ob, mo in zip(cases, obs, mos):
                 if isinstance(ob, SkipCase):
                     continue
-                what = prop.oracle(case, ob)
+                try:
+                    what = prop.oracle(case, ob)
+                except Exception as e:  # the oracle itself could not digest the observation
+                    what = None
+                    tie_bad.append((case, f"oracle raised {type(e).__name__}: {e}"))
                 if what:
                     kid = prop.classify(case, what, known_active)
                     if kid is not None and kid in known_active:
@@ -732,7 +736,10 @@ def run_check(prop: Prop, tier: str, seed: int, replay: str | None = None) -> in
                 if isinstance(mo, BaseException):
                     tie_bad.append((case, f"model error: {mo}"))
                     continue
-                d = prop.compare(case, ob, mo)
+                try:
+                    d = prop.compare(case, ob, mo)
+                except Exception as e:  # model and observation do not even have the same shape
+                    d = f"comparison raised {type(e).__name__}: {e}"
                 if d:
                     tie_bad.append((case, d))
         with ctx.timed("instance_obligations"):
